@@ -75,7 +75,7 @@ package main
 //@ spec func ctDst(s string) string = split_i(s, ":", 2) + ":" + split_i(s, ":", 3)
 
 //@ func (*connectToFlag).Set
-//@   property C19 C16
+//@   property C19 C16 C18
 //@   returns (err)
 //@   requires [non-nil] c != nil
 //@   modifies *c.addrMap, (*c.addrMap)[*], (*c.addrMap)[ctSrc(s)][cap]
@@ -107,7 +107,7 @@ package main
 // own cursor starts at 0 over a finite record sequence is the (assumed, see DESIGN) abstraction of
 // NewRoundRobinDecoder$1's proved contract.
 //@ func decoder
-//@   property C13 C17
+//@   property C13 C17 C08 C10
 //@   returns (dec, closer, err)
 //@   requires [at-least-one-file] len(files) >= 1
 //@   before call NewRoundRobinDecoder: assert [one-decoder-per-file] len(arg0) == len(files) && (forall k int :: 0 <= k && k < len(arg0) ==> arg0[k] != nil)
@@ -239,7 +239,7 @@ package main
 // processAttack: every result received from the attack is observed (if metrics are on) and written
 // exactly once, in the order received, until the channel is closed, a write fails or a second signal.
 //@ func processAttack
-//@   property C02 C20 C09 C05
+//@   property C02 C20 C09 C05 C03
 //@   pragma frame off
 //@   pragma concurrent yes
 //@   shared done, closed
